@@ -227,7 +227,12 @@ where
                         return Poll::Pending;
                     }
                 } else {
-                    return Poll::Ready(None);
+                    // The sender could have provided a value, and then been dropped, after the
+                    // queue was found to be empty.
+                    return Poll::Ready(queue.pop_value().map(|value| {
+                        permits.fetch_add(1, Ordering::Release);
+                        value
+                    }));
                 }
             }
         }
